@@ -181,6 +181,7 @@ def slice_function(root, spec):
         fired['R-dcheck'] = fired.get('R-dcheck', 0) + 1
         if spec.get('drop_dcheck', True): return ''
         macro, args = mm.group(1), mm.group(2)
+        if macro == 'DRACO_DCHECK_NOTNULL': return '__CPROVER_assert((%s) != NULL, "dcheck");' % args
         ops = {'DRACO_DCHECK': None, 'DRACO_DCHECK_EQ': '==', 'DRACO_DCHECK_NE': '!=', 'DRACO_DCHECK_GE': '>=', 'DRACO_DCHECK_GT': '>', 'DRACO_DCHECK_LE': '<=', 'DRACO_DCHECK_LT': '<'}
         op = ops[macro]
         if op is None: cond = args
@@ -188,7 +189,19 @@ def slice_function(root, spec):
             a, b = split_top_level(args)
             cond = '(%s) %s (%s)' % (a, op, b)
         return '__CPROVER_assert(%s, "dcheck");' % cond
-    body = re.sub(r'\b(DRACO_DCHECK(?:_[A-Z]{2})?)\s*\(((?:[^()]|\([^()]*\))*)\)\s*;', dcheck, body)
+    # (balanced-parenthesis scan: arguments may nest arbitrarily)
+    out = []; pos = 0
+    for mm in re.finditer(r'\b(DRACO_DCHECK(?:_[A-Z]{2}|_NOTNULL)?)\s*\(', body):
+        if mm.start() < pos: continue
+        close = match_paren(body, mm.end() - 1)
+        end = close + 1
+        while end < len(body) and body[end] in ' \t': end += 1
+        if end < len(body) and body[end] == ';': end += 1
+        class _M:  # adapter for dcheck()
+            def __init__(s_, a, b): s_.a = a; s_.b = b
+            def group(s_, k): return s_.a if k == 1 else s_.b
+        out.append(body[pos:mm.start()]); out.append(dcheck(_M(mm.group(1), body[mm.end():close]))); pos = end
+    out.append(body[pos:]); body = ''.join(out)
     # static_assert dropped (R-trait)
     body, k = re.subn(r'\bstatic_assert\s*\((?:[^()]|\((?:[^()]|\([^()]*\))*\))*\)\s*;', '', body)
     if k: fired['R-trait.static_assert'] = k
